@@ -48,6 +48,13 @@ def showGroups (out : List Dep) : String :=
 structure HParsed where
   ops : List HOp
 
+/-- `<id>` (the whole delivery) or `<id>=<nonces>` (one resource group of it) -/
+def idGroup (arg : String) : Option (Nat × List Nat) :=
+  match arg.splitOn "=" with
+  | [id] => id.toNat?.map fun i => (i, List.range 64)
+  | [id, ns] => do let i ← id.toNat?; let g ← natList ns; pure (i, g)
+  | _ => none
+
 def parseHOps (s : String) : Option (List HOp) :=
   (items s "/").mapM fun x => do
     let body := if x.length ≤ 1 then "" else (x.drop 1).toString
@@ -58,9 +65,9 @@ def parseHOps (s : String) : Option (List HOp) :=
     let arg := if arg = "" then "-" else arg
     match x.front with
     | 'D' => do let ns ← natList arg; pure (HOp.deliver ns f)
-    | 'S' => do let id ← arg.toNat?; pure (HOp.outcome id true f)
-    | 'F' => do let id ← arg.toNat?; pure (HOp.outcome id false f)
-    | 'T' => do let id ← arg.toNat?; pure (HOp.lost id)
+    | 'S' => do let (id, grp) ← idGroup arg; pure (HOp.outcome id grp true f)
+    | 'F' => do let (id, grp) ← idGroup arg; pure (HOp.outcome id grp false f)
+    | 'T' => do let (id, grp) ← idGroup arg; pure (HOp.lost id grp)
     | 'R' => do
       let ns ← natList arg
       pure (HOp.retry (ns.zipIdx.map fun (n, i) => ({ dest := 2, res := 97, key := n, idx := i } : Dep)) 97 2 f)
@@ -305,6 +312,37 @@ def handle (op : String) (args : List String) (impl : String) : Option Verdict :
         | none => false
       | _ => false
     return ⟨model, ok, s!"hist:ops={min ops.length 6 / 2}:sequential={sequential}:executedSeen={run.any fun x => (List.range n).any fun k => lookup x.2.m k == Status.executed}"⟩
+  | "histstrict", [n, ops] => some <| Id.run do
+    let some n := n.toNat? | return bad
+    let some ops := parseHOps ops | return bad
+    let run := hrunStrict init ops
+    let fin := (run.getLast?.map (·.2)).getD init
+    let model := joinOr (run.map fun x => showRes x.1 ++ "~" ++ snapshot x.2.m n) "/" ++ "#" ++ (if fin.held then "held" else "free")
+    let sequential := seqRun true init ops
+    let ok := match impl.splitOn "#" with
+      | [steps, mx] =>
+        let steps := items steps "/"
+        let snaps := steps.mapM fun st => match st.splitOn "~" with
+          | [r, sn] => do
+            let fs ← (chars sn).mapM statusOf
+            if r == "hang" || fs.length ≠ n then none else some ((List.range n).zip fs)
+          | _ => none
+        -- a delivery selects only records that were missing or failed in the previous snapshot
+        let selOk := fun (prev : List (Nat × Status)) (st : String) =>
+          match ((st.splitOn "~").headD "").splitOn ":" with
+          | ["s", ks] => match natList ks with
+            | some ks => ks.all fun k => lookup prev k == Status.missing || lookup prev k == Status.failed
+            | none => false
+          | _ => true
+        match snaps with
+        | some sn =>
+          mx == "free" && steps.length == ops.length &&
+          ((([] : List (Nat × Status)) :: sn).zip steps).all (fun (prev, st) => selOk prev st) &&
+          ((([] : List (Nat × Status)) :: sn).zip (sn.zip ops)).all (fun (prev, (next, op)) => stepOk op prev next n) &&
+          ((List.range n).all fun k => finalAlong k ([] :: sn))
+        | none => false
+      | _ => false
+    return ⟨model, ok, s!"histstrict:ops={min ops.length 6 / 2}:sequential={sequential}:executedSeen={run.any fun x => (List.range n).any fun k => lookup x.2.m k == Status.executed}"⟩
   | "retryv2", [lis, src, dst, height, res] => some <| Id.run do
     let some lis := lis.toNat? | return bad
     let some src := src.toNat? | return bad
